@@ -14,7 +14,7 @@ OPS: List[Dict[str, Any]] = P.get("ops", [{"op": "add", "path": ["a", "$i"], "va
 OPTS: Dict[str, Any] = P.get("opts", {})  # JSONPatch(..., unicode_escape=, uri_decode=)
 RAWPATHS: List[str] = P.get("rawpaths", [])  # pointer texts on which the options make a difference
 IDX = [0, 1, 2, 3, "-"]
-_LT = {"leaf": Leaf, "int": int, "boolint": Union[bool, int]}
+_LT = {"leaf": Leaf, "int": int, "boolint": Union[bool, int], "nbi": Union[None, bool, int], "optint": Union[None, int]}
 VT = _LT[P.get("vleaf", "int")]
 
 
@@ -24,7 +24,7 @@ def mkdoc(l0: Any, l1: Any, n: int) -> Any:
         arr.append(l0)
     if n >= 2:
         arr.append(l1)
-    return {"a": arr, "b": {"c": l1}, "k": l0}
+    return {"a": arr, "b": {"c": l1, "1": l0}, "k": l0, "0": l1}
 
 
 def _subst(x: Any, i: Any, v: Any, w: Any) -> Any:
@@ -193,7 +193,7 @@ def variants(l0: int, l1: int, n: int, ti: int, v: int) -> bool:
     return ok(why(r_ap[0] == exp_ap[0] and (exp_ap[0] == "err" or same_json(r_ap[1], exp_ap[1])), "addap", path, r_ap, exp_ap))
 
 
-TARGETS = ["/a/0", "/a/1", "/a/2", "/a/5", "/a/-", "/b/c", "/b/new", "/k", "/new", "", "/a/x", "/zz/x"]
+TARGETS = ["/a/0", "/a/1", "/a/2", "/a/5", "/a/-", "/b/c", "/b/new", "/k", "/new", "", "/a/x", "/zz/x", "/b/1", "/0", "/b/7", "/b/01"]
 
 
 def options(pi: int, which: int, v: int, l0: int) -> bool:
